@@ -12,14 +12,26 @@ package main
 // later With that rewrites an earlier recorded entry (aliasing between the recorded Context and the logger's
 // own context array, or the caller's slice, which the harness overwrites after each call) shows only there.
 //
+// FAULTS.  The sink of an io leaf can be told to fail the write of a chosen logging call (error returned with
+// nothing, a part, or all of the line consumed); loggers OUTSIDE the judged tree (cores and sinks of their
+// own, same process, hence the same buffer pool) fail writes and encode failing fields between the
+// operations of the tree; fields whose encoding fails (marshalers returning errors, reflection failures,
+// panicking Stringers) are logged and derived with inside the tree.  A failing sink keeps nothing of that
+// line; every later entry of every logger -- in particular of the loggers derived AFTER the fault -- must be
+// exactly what its own derivation path prescribes.  (An error path that puts a pooled buffer back twice makes
+// two later derivations share one context buffer: a sibling's fields under another logger's name.)
+//
 // Fields are static scripts (enc_gen.go) or MUTABLE marshalers reading a world variable that the program
 // changes between operations, so that the moment of evaluation (With: at derivation; WithLazy: at first use;
 // observer: when the recorded entry is rendered) is visible in the output.
 
 import (
 	"context"
+	"errors"
 	"fmt"
+	"io"
 	"log/slog"
+	"runtime"
 	"strconv"
 	"time"
 
@@ -122,6 +134,18 @@ func (c *c07comp) class() string {
 	return s
 }
 
+// the kinds of the sinks, in construction order (= the sink numbers of the model's labelling)
+func (c *c07comp) sinkKinds() []int {
+	if c.kind == ckJSON || c.kind == ckConsole || c.kind == ckObs {
+		return []int{c.kind}
+	}
+	var out []int
+	for _, k := range c.kids {
+		out = append(out, k.sinkKinds()...)
+	}
+	return out
+}
+
 // minimum level at which the subtree is enabled: false = Info, true = Warn
 func (c *c07comp) minHi() bool {
 	switch c.kind {
@@ -143,13 +167,32 @@ func (c *c07comp) minHi() bool {
 
 type c07sink struct {
 	kind  int
-	lines [][]byte // io sinks: a copy of every line written so far (an io.Writer must not retain p)
+	lines [][]byte // io sinks: a copy of every line ACCEPTED so far (an io.Writer must not retain p)
 	logs  *observer.ObservedLogs
 	mark  int   // lines / recorded entries that existed before the current call
 	cnt   []int // per logging call: how many lines / entries it added to this sink
+	fail  int   // io sinks: how the next writes fail (0: they do not)
 }
 
+// failure modes of a sink's Write
+const (
+	c07failNothing = 1 // error, nothing consumed (disk full, closed pipe)
+	c07failShort   = 2 // short write: half of the line consumed, io.ErrShortWrite
+	c07failLate    = 3 // everything consumed, then an error (a flush that failed)
+)
+
+var errC07sink = errors.New("no space left on device")
+
+// a failing write delivers nothing: the line is kept only when the sink accepts it
 func (s *c07sink) Write(p []byte) (int, error) {
+	switch s.fail {
+	case c07failNothing:
+		return 0, errC07sink
+	case c07failShort:
+		return len(p) / 2, io.ErrShortWrite
+	case c07failLate:
+		return len(p), errC07sink
+	}
 	s.lines = append(s.lines, append([]byte(nil), p...))
 	return len(p), nil
 }
@@ -160,6 +203,62 @@ type c07env struct {
 	aux   []SX
 	sinks []*c07sink
 	ecfg  zapcore.EncoderConfig
+	out   *c07outside
+}
+
+// zap reports a failed write on the logger's ErrorOutput (default: stderr)
+type c07errOut struct{ n int }
+
+func (e *c07errOut) Write(p []byte) (int, error) { e.n++; return len(p), nil }
+func (e *c07errOut) Sync() error                 { return nil }
+
+// ---------- loggers outside the judged tree ----------
+// Two unrelated loggers (a JSON and a console core over sinks of their own).  What they emit is not judged;
+// what they do to process-wide state (the buffer pool) must not show in the tree.
+type c07outside struct {
+	sinks [2]*c07sink
+	logs  [2]*zap.Logger
+	keep  []*zap.Logger
+}
+
+type c07ext struct {
+	kind int // 0/1: the JSON / console logger's sink fails one write; 2/3: it logs fields whose encoding fails;
+	// 4/5: it derives a logger With such fields, which then logs (to a failing sink when mode != 0) and stays alive
+	mode int
+	fs   c07fields
+}
+
+func (x *c07ext) sx() SX { return L(I(2), I(x.kind), I(x.mode), x.fs.sx()) }
+
+func (e *c07env) outside(x *c07ext) {
+	if e.out == nil {
+		e.out = &c07outside{}
+		for i := 0; i < 2; i++ {
+			s := &c07sink{kind: i}
+			enc := zapcore.NewJSONEncoder(e.ecfg)
+			if i == 1 {
+				enc = zapcore.NewConsoleEncoder(e.ecfg)
+			}
+			e.out.sinks[i] = s
+			e.out.logs[i] = zap.New(zapcore.NewCore(enc, s, zapcore.DebugLevel), zap.ErrorOutput(&c07errOut{})).With(zap.String("outside", "tree"))
+		}
+	}
+	i := x.kind & 1
+	s, lg := e.out.sinks[i], e.out.logs[i]
+	switch x.kind {
+	case 0, 1:
+		s.fail = x.mode
+		lg.Named("io").Info("lost entry", zap.Int("n", 1))
+	case 2, 3:
+		lg.Warn("m", x.fs.fs...)
+	default:
+		d := lg.With(x.fs.fs...)
+		s.fail = x.mode
+		d.Warn("m", zap.Int("n", 2))
+		e.out.keep = append(e.out.keep, d)
+	}
+	s.fail = 0
+	s.lines = nil
 }
 
 func (e *c07env) build(c *c07comp) zapcore.Core {
@@ -312,6 +411,8 @@ const (
 	stDesugar
 )
 
+type c07fail struct{ sink, mode int }
+
 type c07op struct {
 	log    bool
 	node   int // parent (derive) or logging node
@@ -321,7 +422,9 @@ type c07op struct {
 	hi     bool
 	msg    []byte
 	w      int64
-	viaChk bool // plain logger: Check(...).Write(...) instead of Info/Warn
+	viaChk bool      // plain logger: Check(...).Write(...) instead of Info/Warn
+	fails  []c07fail // logging call: the sinks whose Write fails for this call, and how
+	ext    *c07ext   // not an operation of the tree: something loggers outside it do at this point
 }
 
 type c07node struct {
@@ -353,8 +456,15 @@ func c07args(fs []zapcore.Field) []interface{} {
 
 func (o *c07op) sx(sugared bool) SX {
 	sg := Bool(sugared)
+	if o.ext != nil {
+		return o.ext.sx()
+	}
 	if o.log {
-		return L(I(1), I(o.node), Bool(o.hi), B(o.msg), o.fs.sx(), Z(o.w), sg)
+		fl := make([]SX, len(o.fails))
+		for i, f := range o.fails {
+			fl[i] = I(f.sink)
+		}
+		return L(I(1), I(o.node), Bool(o.hi), B(o.msg), o.fs.sx(), Z(o.w), sg, L(fl...))
 	}
 	var st SX
 	switch o.step {
@@ -378,9 +488,14 @@ func (o *c07op) sx(sugared bool) SX {
 func c07run(comp *c07comp, env *c07env, ops []*c07op) (opx []SX, obs []SX, end []SX) {
 	var ws []int64
 	core := env.build(comp)
-	nodes := []c07node{{plain: zap.New(core)}}
+	nodes := []c07node{{plain: zap.New(core, zap.ErrorOutput(&c07errOut{}))}}
 	for _, o := range ops {
 		env.world = o.w
+		if o.ext != nil {
+			opx = append(opx, o.sx(false))
+			env.outside(o.ext)
+			continue
+		}
 		n := nodes[o.node]
 		sugared := n.sugar != nil
 		opx = append(opx, o.sx(sugared))
@@ -443,6 +558,9 @@ func c07run(comp *c07comp, env *c07env, ops []*c07op) (opx []SX, obs []SX, end [
 		if sugared {
 			args = c07args(fs)
 		}
+		for _, f := range o.fails {
+			env.sinks[f.sink].fail = f.mode
+		}
 		switch {
 		case sugared && o.hi:
 			n.sugar.Warnw(string(o.msg), args...)
@@ -456,6 +574,9 @@ func c07run(comp *c07comp, env *c07env, ops []*c07op) (opx []SX, obs []SX, end [
 			n.plain.Warn(string(o.msg), fs...)
 		default:
 			n.plain.Info(string(o.msg), fs...)
+		}
+		for _, f := range o.fails {
+			env.sinks[f.sink].fail = 0
 		}
 		parts := env.collect()
 		c07poison(fs, args) // after the immediate view was taken: only the end-of-history view can show it
@@ -472,8 +593,76 @@ type c07gen struct {
 	env *c07env
 	g   *genState
 	// statistics of the case
-	nmut, nns, nlazy int
-	hiPct            int // chance of a call being made at Warn
+	nmut, nns, nlazy, nfault int
+	hiPct                    int   // chance of a call being made at Warn
+	io                       []int // the io sinks of the case's composition (those whose Write can fail)
+	failPct, extPct          int   // chance of a logging call meeting failing sinks / of outside activity after an operation
+}
+
+// fixes the composition the program is generated for
+func (g *c07gen) use(comp *c07comp, failPct, extPct int) *c07comp {
+	g.io = nil
+	for i, k := range comp.sinkKinds() {
+		if k != ckObs {
+			g.io = append(g.io, i)
+		}
+	}
+	g.failPct, g.extPct = failPct, extPct
+	return comp
+}
+
+// a non-empty set of io sinks that fail the write of one call, each in a mode of its own
+func (g *c07gen) failSet() []c07fail {
+	if len(g.io) == 0 {
+		return nil
+	}
+	r := g.r
+	var out []c07fail
+	for _, k := range g.io {
+		if r.Chance(60) {
+			out = append(out, c07fail{k, r.Range(1, 3)})
+		}
+	}
+	if len(out) == 0 {
+		out = append(out, c07fail{g.io[r.Intn(len(g.io))], r.Range(1, 3)})
+	}
+	g.nfault++
+	return out
+}
+
+// n static fields whose encoding takes an error path: marshalers returning errors (also nested), values
+// encoding/json rejects, panicking and nil Stringers, error values (panicking Error methods included)
+func (g *c07gen) failing(n int) c07fields {
+	var out c07fields
+	for tries := 0; len(out.fs) < n && tries < 200; tries++ {
+		g.g.size = 8
+		g.g.fault = false
+		f, x := g.g.field(2)
+		g.g.nsp = false
+		if !g.g.fault || f.Type == zapcore.NamespaceType {
+			continue
+		}
+		out.fs = append(out.fs, f)
+		out.xs = append(out.xs, x)
+	}
+	return out
+}
+
+// something loggers outside the tree do between two operations of the tree
+func (g *c07gen) extOp(p *c07prog) {
+	r := g.r
+	x := &c07ext{kind: r.Intn(6)}
+	switch x.kind {
+	case 0, 1:
+		x.mode = r.Range(1, 3)
+	case 2, 3:
+		x.fs = g.failing(r.Range(1, 2))
+	default:
+		x.fs = g.failing(r.Range(1, 2))
+		x.mode = r.Intn(4)
+	}
+	g.nfault++
+	p.ops = append(p.ops, &c07op{ext: x, w: p.tick(r)})
 }
 
 func newC07gen(r *RNG) *c07gen {
@@ -644,7 +833,20 @@ func (g *c07gen) log(p *c07prog, node int, nf int) {
 	default:
 		msg = hostile(r, 6)
 	}
-	p.ops = append(p.ops, &c07op{log: true, node: node, hi: r.Chance(g.hiPct), msg: msg, fs: g.fields(nf, 25), w: p.tick(r), viaChk: r.Chance(20)})
+	o := &c07op{log: true, node: node, hi: r.Chance(g.hiPct), msg: msg, fs: g.fields(nf, 25), w: p.tick(r), viaChk: r.Chance(20)}
+	if g.failPct > 0 && r.Chance(g.failPct) {
+		o.fails = g.failSet()
+	}
+	p.ops = append(p.ops, o)
+	if g.extPct > 0 && r.Chance(g.extPct) {
+		g.extOp(p)
+	}
+}
+
+// the faulted call itself: the chosen sinks fail its write / its fields fail to encode
+func (g *c07gen) logFault(p *c07prog, node int, fails []c07fail, fs c07fields) {
+	r := g.r
+	p.ops = append(p.ops, &c07op{log: true, node: node, hi: r.Chance(80), msg: []byte("lost"), fs: fs, w: p.tick(r), viaChk: r.Chance(20), fails: fails})
 }
 
 func newC07prog() *c07prog {
@@ -854,7 +1056,129 @@ func (g *c07gen) relogProg() *c07prog {
 	return p
 }
 
-// compositions for the programs above: observers directly, in tees, below lazy / hooked / sampler / filter
+// the fault pattern: somewhere in the process an error path is taken -- a sink of the tree fails the write
+// of one entry (any logger of the tree, any mode), an entry or a derivation carries fields whose encoding
+// fails, or a logger outside the tree does either -- and AFTERWARDS loggers are derived (With / Fields /
+// sugared With, through Named and Sugar clones), 2-4 siblings alive together, each logging while and after the
+// others are derived, their parent too, the first sibling again; 1-3 such rounds in one history, later rounds
+// deriving from loggers of earlier ones; the entries sent to failing sinks are lost, everything else is judged.
+func (g *c07gen) faultProg() *c07prog {
+	r := g.r
+	p := newC07prog()
+	cur := 0
+	for i, d := 0, r.Intn(4); i < d; i++ {
+		cur = g.randStep(p, cur)
+	}
+	bases := []int{cur}
+	if cur != 0 && r.Bool() {
+		bases = append(bases, 0)
+	}
+	if r.Chance(30) {
+		g.log(p, cur, r.Intn(2))
+	}
+	for k, rounds := 0, r.Range(1, 3); k < rounds; k++ {
+		base := bases[r.Intn(len(bases))]
+		for i, nf := 0, 1+r.Intn(2)*r.Intn(2); i < nf; i++ {
+			switch x := r.Intn(100); {
+			case x < 45 && len(g.io) > 0:
+				var fs c07fields
+				if r.Chance(30) {
+					fs = g.fields(r.Range(1, 2), 15)
+				}
+				g.logFault(p, r.Intn(len(p.sugared)), g.failSet(), fs)
+			case x < 60:
+				g.nfault++
+				g.logFault(p, r.Intn(len(p.sugared)), nil, g.failing(r.Range(1, 2)))
+			case x < 70:
+				// a derivation with failing fields; the logger logs (possibly to failing sinks)
+				g.nfault++
+				st := stWith
+				if r.Chance(30) {
+					st = stFields
+				}
+				d := g.derive(p, r.Intn(len(p.sugared)), st, g.failing(r.Range(1, 2)), nil)
+				var fl []c07fail
+				if r.Bool() {
+					fl = g.failSet()
+				}
+				g.logFault(p, d, fl, c07fields{})
+			default:
+				g.extOp(p)
+			}
+		}
+		var kids []int
+		for i, nk := 0, r.Range(2, 4); i < nk; i++ {
+			par := base
+			if r.Chance(25) {
+				par = g.derive(p, par, stNamed, c07fields{}, g.seg())
+			}
+			if r.Chance(20) {
+				par = g.derive(p, par, stSugar, c07fields{}, nil)
+			}
+			st := stWith
+			switch x := r.Intn(20); {
+			case x < 3:
+				st = stFields
+			case x < 5:
+				st = stWithLazy
+				g.nlazy++
+			}
+			kid := g.derive(p, par, st, g.fields(r.Range(1, 2), 10), nil)
+			kids = append(kids, kid)
+			if r.Chance(25) {
+				g.log(p, kid, r.Intn(2))
+			}
+		}
+		for _, kid := range kids {
+			g.log(p, kid, r.Intn(3))
+		}
+		g.log(p, base, r.Intn(2))
+		g.log(p, kids[0], 1)
+		if r.Chance(30) {
+			g.log(p, 0, 0)
+		}
+		if r.Chance(60) {
+			bases = append(bases, kids[r.Intn(len(kids))])
+		}
+	}
+	return p
+}
+
+// compositions with at least one io leaf (the cores whose encoders hold pooled buffers)
+func (g *c07gen) faultComp(i int) *c07comp {
+	r := g.r
+	leaf := func() *c07comp { return &c07comp{kind: []int{ckJSON, ckConsole}[r.Intn(2)]} }
+	switch i % 4 {
+	case 0:
+		return leaf()
+	case 1:
+		switch r.Intn(6) {
+		case 0:
+			return &c07comp{kind: ckTee, kids: []*c07comp{leaf(), leaf()}}
+		case 1:
+			return &c07comp{kind: ckTee, kids: []*c07comp{{kind: ckObs}, leaf()}}
+		case 2:
+			g.nlazy++
+			return &c07comp{kind: ckLazy, fs: g.fields(r.Range(1, 2), 20), kids: []*c07comp{leaf()}}
+		case 3:
+			return &c07comp{kind: ckHook, kids: []*c07comp{leaf()}}
+		case 4:
+			return &c07comp{kind: ckSamp, kids: []*c07comp{{kind: ckTee, kids: []*c07comp{leaf(), {kind: ckObs}}}}}
+		default:
+			return &c07comp{kind: ckFilt, thr: r.Bool(), kids: []*c07comp{leaf()}}
+		}
+	default:
+		comp := g.comp(2, false)
+		for _, k := range comp.sinkKinds() {
+			if k != ckObs {
+				return comp
+			}
+		}
+		return &c07comp{kind: ckTee, kids: []*c07comp{comp, leaf()}}
+	}
+}
+
+// compositions for the re-log programs: observers directly, in tees, below lazy / hooked / sampler / filter
 func (g *c07gen) relogComp(i int) *c07comp {
 	r := g.r
 	obs := func() *c07comp { return &c07comp{kind: ckObs} }
@@ -904,6 +1228,7 @@ func (g *c07gen) emit(c *Ctx, comp *c07comp, p *c07prog, class string) {
 				panicked = true
 			}
 		}()
+		c07cleanPool()
 		opx, obs, end = c07run(comp, g.env, p.ops)
 	}()
 	if panicked {
@@ -940,7 +1265,15 @@ func (g *c07gen) emit(c *Ctx, comp *c07comp, p *c07prog, class string) {
 	}
 	c.Emit(L(comp.sx(), L(opx...)), L(L(obs...), L(end...)), map[string]string{
 		"nt": nt, "class": class + ":" + comp.class(), "nodes": fmt.Sprint(len(p.sugared)), "logs": fmt.Sprint(logs),
-		"mut": fmt.Sprint(g.nmut), "ns": fmt.Sprint(g.nns), "lazy": fmt.Sprint(g.nlazy), "sibs": fmt.Sprint(maxKids)})
+		"mut": fmt.Sprint(g.nmut), "ns": fmt.Sprint(g.nns), "lazy": fmt.Sprint(g.nlazy), "sibs": fmt.Sprint(maxKids),
+		"faults": fmt.Sprint(g.nfault)})
+}
+
+// Every case starts from an empty buffer pool (two collections empty a sync.Pool: primary, then victim
+// cache), so that what a case shows is caused by its own history and replays alone.
+func c07cleanPool() {
+	runtime.GC()
+	runtime.GC()
 }
 
 // ---------- directed corner cases ----------
@@ -1130,6 +1463,83 @@ func c07directed(c *Ctx) {
 		logAt(p, k, true, c07fields{}, 9)
 		logAt(p, l, true, c07fields{}, 11)
 		g.emit(c, comp, p, "dirroot")
+	}
+}
+
+// directed fault histories: root.With(svc); ONE error path taken (a sink of the tree fails the write of an
+// entry of root.Named("io") in each mode / a logger outside the tree fails a write / fields fail to encode,
+// in a call or in a derivation); then the siblings A = root.Named("A").With(who=a), B = root.Named("B").With(who=b)
+// (plain, or through Sugar().With(...).Desugar()), both alive; a, b, root, a log; a grandchild; a again.
+func c07directedFaults(c *Ctx) {
+	comps := func() []*c07comp {
+		return []*c07comp{
+			{kind: ckJSON}, {kind: ckConsole},
+			{kind: ckTee, kids: []*c07comp{{kind: ckJSON}, {kind: ckObs}, {kind: ckConsole}}},
+			{kind: ckTee, kids: []*c07comp{{kind: ckJSON}, {kind: ckJSON}}},
+			{kind: ckHook, kids: []*c07comp{{kind: ckTee, kids: []*c07comp{{kind: ckObs}, {kind: ckJSON}}}}},
+			{kind: ckFilt, thr: true, kids: []*c07comp{{kind: ckJSON}}},
+			{kind: ckSamp, kids: []*c07comp{{kind: ckConsole}}},
+			{kind: ckLazy, fs: c07fields{[]zapcore.Field{zap.String("l1", "l1!")}, []SX{L(I(4), Str("l1"), Str("l1!"))}}, kids: []*c07comp{{kind: ckJSON}}},
+		}
+	}
+	for ci := range comps() {
+		for v := 0; v < 9; v++ {
+			for sug := 0; sug < 2; sug++ {
+				g := newC07gen(NewRNG(uint64(3000 + 100*ci + 10*v + sug)))
+				comp := g.use(comps()[ci], 0, 0)
+				one := func(k, val string) c07fields {
+					f, x := g.str(k, val)
+					return c07fields{[]zapcore.Field{f}, []SX{x}}
+				}
+				logAt := func(p *c07prog, node int, fs c07fields, fails []c07fail) {
+					p.ops = append(p.ops, &c07op{log: true, node: node, hi: true, msg: []byte("m"), fs: fs, w: p.w, fails: fails})
+				}
+				all := func(mode int) []c07fail {
+					var out []c07fail
+					for _, k := range g.io {
+						out = append(out, c07fail{k, mode})
+					}
+					return out
+				}
+				p := newC07prog()
+				root := g.derive(p, 0, stWith, one("svc", "api"), nil)
+				ioN := g.derive(p, root, stNamed, c07fields{}, []byte("io"))
+				g.nfault++
+				switch v {
+				case 0, 1, 2: // every io sink of the tree fails the write, in mode v+1
+					logAt(p, ioN, one("n", "1"), all(v+1))
+				case 3: // only the first io sink fails
+					logAt(p, ioN, one("n", "1"), all(c07failNothing)[:1])
+				case 4, 5: // a logger outside the tree fails a write (JSON / console)
+					p.ops = append(p.ops, &c07op{ext: &c07ext{kind: v - 4, mode: c07failNothing}, w: p.w})
+				case 6: // fields whose encoding fails, in a call
+					logAt(p, ioN, g.failing(2), nil)
+				case 7: // ... in a derivation, whose logger then meets failing sinks
+					d := g.derive(p, ioN, stWith, g.failing(1), nil)
+					logAt(p, d, c07fields{}, all(c07failShort))
+				default: // two failed writes in a row, the second from the root logger
+					logAt(p, ioN, one("n", "1"), all(c07failNothing))
+					logAt(p, 0, c07fields{}, all(c07failLate))
+				}
+				var a, b int
+				if sug == 1 {
+					a = g.derive(p, g.derive(p, g.derive(p, g.derive(p, root, stSugar, c07fields{}, nil), stWith, one("who", "a"), nil), stDesugar, c07fields{}, nil), stNamed, c07fields{}, []byte("A"))
+					b = g.derive(p, g.derive(p, g.derive(p, g.derive(p, root, stSugar, c07fields{}, nil), stWith, one("who", "b"), nil), stDesugar, c07fields{}, nil), stNamed, c07fields{}, []byte("B"))
+				} else {
+					a = g.derive(p, g.derive(p, root, stNamed, c07fields{}, []byte("A")), stWith, one("who", "a"), nil)
+					b = g.derive(p, g.derive(p, root, stNamed, c07fields{}, []byte("B")), stWith, one("who", "b"), nil)
+				}
+				logAt(p, a, one("k", "1"), nil)
+				logAt(p, b, one("k", "2"), nil)
+				logAt(p, root, c07fields{}, nil)
+				logAt(p, a, c07fields{}, nil)
+				gc := g.derive(p, a, stWith, one("gc", "x"), nil)
+				logAt(p, gc, c07fields{}, nil)
+				logAt(p, b, one("k", "3"), nil)
+				logAt(p, a, one("k", "4"), nil)
+				g.emit(c, comp, p, "dirfault")
+			}
+		}
 	}
 }
 
@@ -1333,8 +1743,9 @@ func (g *c07gen) emitSlog(c *Ctx, comp *c07comp, name string, ops []*c07sop) {
 
 func c07(c *Ctx) {
 	c07directed(c)
+	c07directedFaults(c)
 	r := NewRNG(c.Seed)
-	nSib, nRand, maxNodes := 600, 1300, 14
+	nSib, nRand, maxNodes := 600, 1200, 14
 	if c.Thorough {
 		nSib, nRand, maxNodes = 12000, 25000, 40
 	}
@@ -1346,7 +1757,17 @@ func c07(c *Ctx) {
 		} else {
 			comp = g.comp(2, false)
 		}
+		g.use(comp, 6, 3)
 		g.emit(c, comp, g.siblingProg(), "sib")
+	}
+	nFault := 500
+	if c.Thorough {
+		nFault = 12000
+	}
+	for i := 0; i < nFault; i++ {
+		g := newC07gen(r.Fork())
+		comp := g.use(g.faultComp(i), 10, 5)
+		g.emit(c, comp, g.faultProg(), "fault")
 	}
 	nRelog := 500
 	if c.Thorough {
@@ -1354,7 +1775,7 @@ func c07(c *Ctx) {
 	}
 	for i := 0; i < nRelog; i++ {
 		g := newC07gen(r.Fork())
-		comp := g.relogComp(i)
+		comp := g.use(g.relogComp(i), 6, 3)
 		g.emit(c, comp, g.relogProg(), "relog")
 	}
 	for i := 0; i < nRand; i++ {
@@ -1363,7 +1784,7 @@ func c07(c *Ctx) {
 		if i%10 == 9 {
 			mn = 40
 		}
-		comp := g.comp(3, false)
+		comp := g.use(g.comp(3, false), 8, 4)
 		g.emit(c, comp, g.randProg(mn), "rand")
 	}
 	nSlog := 500
